@@ -97,6 +97,9 @@ pub struct StructField {
 
     pub xml_name: Option<String>,
     pub xml_flattened: bool,
+    pub xml_attribute: bool,
+    /// `(prefix, uri)` of the namespace that the element of this field declares
+    pub xml_namespace_prefix: Option<(String, String)>,
 
     pub is_custom_extension: bool,
 }
